@@ -50,7 +50,21 @@ def _reverse_plugin() -> Any:
     return VfReverse
 
 
-def flags_for(role: str, pool: bool = False) -> Any:
+def flags_for(role: str, pool: bool = False, events: bool = False) -> Any:
+    if events:
+        key = role + '+events' + ('+pool' if pool and role == 'forward' else '')
+        if role == 'web':
+            from vf.props import c07
+            if _FLAGS.get('web_dir') != c07.static_dir():
+                _FLAGS.pop(key, None)
+        if key not in _FLAGS:
+            base = flags_for(role, pool)
+            argv = {'forward': ['--threadless'] + (['--enable-conn-pool'] if pool else []),
+                    'web': ['--threadless', '--enable-web-server', '--enable-static-server', '--static-server-dir', base.static_server_dir],
+                    'reverse': ['--threadless', '--enable-reverse-proxy']}[role]
+            plugins = {'forward': [], 'web': [_web_plugin()], 'reverse': [_reverse_plugin()]}[role]
+            _FLAGS[key] = K.make_flags(argv + ['--enable-events'], plugins=plugins)
+        return _FLAGS[key]
     if role == 'forward' and pool:
         if 'forward-pooled' not in _FLAGS:
             _FLAGS['forward-pooled'] = K.make_flags(['--threadless', '--enable-conn-pool'])
@@ -94,7 +108,9 @@ def render_request(role: str, r: Dict[str, Any], i: int) -> bytes:
     else:
         target = (b'/ra/' if r['to'] == 'a' else b'/rb/') + b'p%d' % i
         hosth = b'front.test'
-    head = method + b' ' + target + b' HTTP/1.1\r\nHost: ' + hosth + b'\r\nX-Req: %d\r\n' % i
+    head = method + b' ' + target + b' HTTP/1.1\r\n' + (b'Host: ' + hosth + b'\r\n' if not r.get('no_host') else b'') + b'X-Req: %d\r\n' % i
+    if r.get('obs_text'):
+        head += b'X-Note: caf\xe9 na\xefve\r\n'      # obs-text octets (latin-1), valid in a field value
     if body:
         head += b'Content-Length: %d\r\n' % len(body)
     return head + b'\r\n' + body
@@ -102,7 +118,7 @@ def render_request(role: str, r: Dict[str, Any], i: int) -> bytes:
 
 def run_case(c: Dict[str, Any]) -> Dict[str, Any]:
     role = c['role']
-    flags = flags_for(role, bool(c.get('pool')))
+    flags = flags_for(role, bool(c.get('pool')), bool(c.get('events')))
     w = K.World(flags, max_iters=30000)
     raws = [render_request(role, r, i) for i, r in enumerate(c['requests'])]
     reqs = [(raw, [x for x in r.get('cuts', []) if 0 < x < len(raw)]) for raw, r in zip(raws, c['requests'])]
@@ -162,6 +178,7 @@ def evaluate(c: Dict[str, Any]) -> Tuple[List[Any], Dict[str, Any]]:
     multi_seg = any(len([x for x in q.get('cuts', []) if 0 < x < len(raw)]) > 0 for q, raw in zip(c['requests'], r['raws']))
     packed = bool(c.get('packing')) and c['pipelined'] and any(p > 1 for p in c['packing'])
     feat = {'role': role, 'pipelined': c['pipelined'], 'n': min(n, 3), 'distinct_targets': len(set(tos)) > 1,
+            'events': bool(c.get('events')), 'odd_request': any(q.get('no_host') or q.get('obs_text') for q in c['requests']),
             'packed': packed}
     info = {'n': n, 'multi_seg': multi_seg, 'packed': packed, 'distinct': len(set(tos)) > 1}
     out: List[Any] = []
@@ -262,10 +279,15 @@ def cases(draw: Any, role: str) -> Dict[str, Any]:
         else:
             q['to'] = draw(st.sampled_from(['a', 'a', 'b']))
         q['body'] = draw(st.sampled_from([0, 0, 0, 1, 10, 300, 70000]))
+        if role != 'forward' and draw(st.integers(0, 7)) == 0:
+            q['no_host'] = True        # origin-form request without a Host field (what an HTTP/1.0-style client sends)
+        if draw(st.integers(0, 7)) == 0:
+            q['obs_text'] = True
         q['cuts'] = draw(st.one_of(st.just([]), st.just([]), st.lists(st.integers(1, 200), min_size=1, max_size=4)))
         reqs.append(q)
     pipelined = draw(st.booleans())
     c = {'role': role, 'requests': reqs, 'pipelined': pipelined, 'pool': role == 'forward' and draw(st.integers(0, 3)) == 0,
+         'events': draw(st.integers(0, 3)) == 0,
          'packing': draw(st.lists(st.integers(1, 4), min_size=1, max_size=4)) if pipelined and draw(st.booleans()) else [],
          'schedule': draw(st.lists(st.integers(0, 3), max_size=40))}
     return c
@@ -286,6 +308,12 @@ def run_shard(spec: Dict[str, Any], seed: int, acc: Any) -> None:
         labs = ['role:' + c['role'], 'pipelined' if c['pipelined'] else 'keep-alive', 'n:%d' % info['n']]
         if c.get('pool'):
             labs.append('conn-pool')
+        if c.get('events'):
+            labs.append('events-enabled')
+        if any(q.get('no_host') for q in c['requests']):
+            labs.append('request-without-host-field')
+        if any(q.get('obs_text') for q in c['requests']):
+            labs.append('obs-text-header-value')
         if info['packed']:
             labs.append('several-requests-per-segment')
         if info['multi_seg']:
